@@ -123,7 +123,20 @@ func runBounded(id, tier string, seed int, findings []*finding, res *propResult)
 			"replay_status": "failing input found by the bounded harness on the real code (go test -overlay; rerun: /verif/tools/rac.sh " + id + ")"})
 		violLines = append(violLines, fmt.Sprintf("VIOLATION property=%s replay=%s obligation=%s status=failed input=%q", id, path, name, trunc(strings.ReplaceAll(v.Script, "\n", " "), 200)))
 	}
+	// several inputs may probe one listed finding: it reproduces if any of them fails
+	var probes []racVio
+	seenProbe := map[string]int{}
 	for _, p := range rep.Probes {
+		if i, ok := seenProbe[p.ID]; ok {
+			if p.Fails && !probes[i].Fails {
+				probes[i] = p
+			}
+			continue
+		}
+		seenProbe[p.ID] = len(probes)
+		probes = append(probes, p)
+	}
+	for _, p := range probes {
 		name := fmt.Sprintf("rac.%s.probe.%s", id, p.ID)
 		var hit *finding
 		for _, f := range findings {
